@@ -89,6 +89,8 @@ def run(ctx):
             why = "building the graph modified the model"
         if not why and not g0[0]:
             why = "the graph is not drawn from user types towards relations (drawing direction)"
+        if not why:
+            why = gs.plain_structure_mismatch(m, g0)
         for (f, t, et, ts) in g0[2]:
             if et == 0 and ntype[t] not in (1, 2) and not why:
                 why = "a direct edge enters node %d, which is neither a relation nor an operator" % t
